@@ -380,7 +380,18 @@ func checkMain(args []string) {
 			report(o.name, o, u, nil)
 		}
 	}
+	erred := map[string]bool{}
+	for _, u := range units {
+		if u.err != nil {
+			erred[u.name] = true
+		}
+	}
 	for _, n := range ledgerMissing {
+		// a function the engine could not process is already reported once
+		// (engine/supported); its ledger entries are not reported one by one
+		if i := strings.Index(n, "/"); i > 0 && erred[n[:i]] {
+			continue
+		}
 		report(n, nil, nil, map[string]any{"result": "missing", "note": "an obligation recorded in the ledger for the unchanged tree was not generated (contract no longer binds, loop or return site vanished)"})
 	}
 	// known findings that stopped failing while still listed as known: engine canary
